@@ -105,7 +105,7 @@ func c15WorldCfg(cfgName string) *world.World {
 	return w
 }
 
-const c15Spelled = 9 + 5
+const c15Spelled = 9 + 5 + 3
 
 var c15BigSizes = []int{150, 400, 690, 1000, 2000}
 
@@ -189,6 +189,12 @@ func c15Bodies() []c15Body {
 		tag := fmt.Sprintf("g%d-zz", n)
 		big = append(big, c15Body{fmt.Sprintf("callback-big-%d", n), []string{tag, c15HostA}, cb(tag, c15HostA)})
 	}
+	// the host of tenant a written in another letter case (another Host header value: issuer and locations follow THIS request)
+	upperA := strings.ToUpper(c15HostA)
+	big = append(big,
+		c15Body{"metadata-host-a-in-upper-case", []string{upperA}, get(upperA, func(w *world.World) string { return w.Cfg.MetadataPath() })},
+		c15Body{"sso-rejected-host-a-in-upper-case", []string{"x3-va", upperA}, sso(msg.SPA(), upperA, "x3-va", true)},
+		c15Body{"logout-A-host-a-in-upper-case", []string{"x4-vb", upperA}, lo(msg.SPA(), upperA, "x4-vb")})
 	return append(big, []c15Body{
 		{"sso-post-A-unpadded-base64", []string{"w0-ua", c15HostA}, ssoPostSpelled(msg.SPA(), c15HostA, "w0-ua", "unpadded")},
 		{"sso-post-B-unpadded-base64", []string{"w1-ub", c15HostB}, ssoPostSpelled(msg.SPB(), c15HostB, "w1-ub", "unpadded")},
